@@ -1,6 +1,2 @@
-(* Eng/Proofs.v — C20 proofs (in progress) *)
-From ZV Require Import Common.Bytes Common.BytesFacts Eng.Consts Eng.Model.
-Open Scope N_scope.
-
-Lemma db_clear_committed d : committed (db_clear d) = committed d.
-Proof. reflexivity. Qed.
+(* Eng/Proofs.v — C20: all proofs of the group (re-export) *)
+From ZV Require Export Eng.ProofsOrder Eng.ProofsMap Eng.ProofsBatch Eng.ProofsIter Eng.ProofsScript.
